@@ -306,7 +306,15 @@ def dataset_like(sample_dataset: xarray.Dataset, new_dataset: xarray.Dataset) ->
     _update_no_clobber(sample_dataset.encoding, like_dataset.encoding)
     for key, sample_variable in sample_dataset.variables.items():
         new_variable = like_dataset.variables[key]
-        _update_no_clobber(sample_variable.attrs, new_variable.attrs)
+        # xarray moves attributes such as _FillValue to the encoding when it
+        # decodes a variable. If the sample was not decoded that way,
+        # do not restore an attribute the new variable carries as an encoding,
+        # a variable with both can not be saved.
+        sample_attrs = {
+            name: value for name, value in sample_variable.attrs.items()
+            if name not in new_variable.encoding
+        }
+        _update_no_clobber(sample_attrs, new_variable.attrs)
         _update_no_clobber(sample_variable.encoding, new_variable.encoding)
 
     # Done!
